@@ -297,3 +297,15 @@ def gen_C17(tier, rnd):
 
 
 GENERATORS['C17'] = gen_C17
+
+
+# ------------------------------------------------------------------ compile-side streams
+import gen_compile as gc
+GENERATORS['C12'] = gc.gen_unsupported
+GENERATORS['C04'] = gc.gen_strings
+GENERATORS['C20'] = gc.gen_histories_c20
+GENERATORS['C11'] = gc.gen_resources
+GENERATORS['C16'] = gc.gen_resources
+GENERATORS['C09'] = gc.gen_small_trees
+GENERATORS['C10'] = gc.gen_actions
+GENERATORS['C15'] = gc.gen_histories_c15
